@@ -1839,6 +1839,7 @@ func checkC19(w *World) {
 					}
 					nRe++
 					fresh := false
+					seeded := ""
 					var isFreshNew func(v ssa.Value, d int) bool
 					isFreshNew = func(v ssa.Value, d int) bool {
 						nc, isCall := v.(*ssa.Call)
@@ -1866,8 +1867,29 @@ func checkC19(w *World) {
 					}
 					if ic, isCall := stripConvAll(c.Call.Args[1]).(*ssa.Call); isCall && reflectMethod(ic) == "Interface" && len(ic.Call.Args) > 0 {
 						fresh = isFreshNew(ic.Call.Args[0], 0)
+						// ... and still empty: nothing but reflect.Zero is stored through the new pointer before the
+						// conversion fills it (seeding it with the field's current value accumulates into a reused slice)
+						if nc, isNew := ic.Call.Args[0].(*ssa.Call); isNew && fresh && nc.Referrers() != nil {
+							for _, r1 := range *nc.Referrers() {
+								ec, isE := r1.(*ssa.Call)
+								if !isE || reflectMethod(ec) != "Elem" || ec.Referrers() == nil {
+									continue
+								}
+								for _, r2 := range *ec.Referrers() {
+									sc, isS := r2.(*ssa.Call)
+									if !isS || !strings.HasPrefix(reflectMethod(sc), "Set") || len(sc.Call.Args) < 2 || sc.Call.Args[0] != ssa.Value(ec) {
+										continue
+									}
+									zc, isZ := sc.Call.Args[1].(*ssa.Call)
+									if reflectMethod(sc) != "Set" || !isZ || staticCallee(zc) == nil || funcFullName(staticCallee(zc)) != "reflect.Zero" {
+										fresh = false
+										seeded = " (a value other than reflect.Zero is stored through the new pointer at " + w.pos(sc.Pos()) + " before the conversion fills it)"
+									}
+								}
+							}
+						}
 					}
-					w.check(P, "R19.4", "nested target handed to "+entry.Name()+" in "+g.Name(), c.Pos(), fresh, fmt.Sprintf("the target of the nested conversion is reflect.New(T).Interface(): %v", fresh))
+					w.check(P, "R19.4", "nested target handed to "+entry.Name()+" in "+g.Name(), c.Pos(), fresh, fmt.Sprintf("the target of the nested conversion is an empty reflect.New(T).Interface(): %v%s", fresh, seeded))
 				})
 			}
 			_ = nRe
